@@ -852,7 +852,7 @@ class CoreStep(CoreItem):
     __slots__ = ( "corePackage", "digestEnv", "env", "args",
         "providedEnv", "providedTools", "providedDeps", "providedSandbox",
         "variantId", "deterministic", "isValid", "toolDep", "toolDepWeak",
-        "auditFileNames" )
+        "auditFileNames", "resultId" )
 
     def __init__(self, corePackage, isValid, deterministic, digestEnv, env, args,
                  toolDep, toolDepWeak, auditFileNames):
@@ -871,6 +871,7 @@ class CoreStep(CoreItem):
         self.providedDeps = []
         self.providedSandbox = None
         self.auditFileNames = auditFileNames
+        self.resultId = None
 
     def getPreRunCmds(self):
         return []
@@ -969,12 +970,15 @@ class CoreStep(CoreItem):
         return h.digest()
 
     def getResultId(self):
+        if self.resultId is not None:
+            return self.resultId
         h = hashlib.sha1()
         h.update(self.variantId)
-        # Include invalid dependencies. They are needed for traversing dummy
-        # packages without a buildScript in path queries. Valid dependencies
-        # are already included in the variantId.
-        args = [ arg for arg in (a.refGetDestination() for a in self.args) if not arg.isValid ]
+        # Include the result ids of all dependencies. They are needed for
+        # traversing dummy packages without a buildScript in path queries.
+        # The variantId of a valid dependency does not cover what is reachable
+        # only through its invalid steps.
+        args = [ a.refGetDestination() for a in self.args ]
         h.update(struct.pack("<I", len(args)))
         for arg in args:
             h.update(arg.getResultId())
@@ -1028,7 +1032,8 @@ class CoreStep(CoreItem):
         # doesn't make sense to differentiate here.
         h.update(b'\x01' if self.corePackage.isShared else b'\x00')
 
-        return h.digest()
+        self.resultId = h.digest()
+        return self.resultId
 
     @property
     def fingerprintMask(self):
